@@ -10,6 +10,14 @@ class Analysis(object):
         self.k = Kinds(prog, PARAM_KINDS)
         self.s = Summaries(prog, kinds=self.k)
 
+    def alias_expander(self, f):
+        """Expander restricted to pure location aliases (x = a.b / a[k] / y), cached per function."""
+        cache = self.__dict__.setdefault("_alias_x", {})
+        if f.qualname not in cache:
+            from .symtext import Expander
+            cache[f.qualname] = Expander(f, self.s.cfg(f), only_locations=True)
+        return cache[f.qualname]
+
     def note_coverage(self, rep):
         rep.analysed["call_sites"] = self.s.n_calls
         rep.analysed["unresolved"] = len(self.s.unresolved)
